@@ -12,10 +12,10 @@ use engine::{catch, machinery_error, par_shards, parse_args, replay_and_exit, Re
 use mc_html::{
     all_cfgs, cfg_by_name, clean_chain_docs, clean_elements, clean_pair_docs, clean_single_docs, diff_class,
     forest_docs, input_shards, ladder_docs, ladder_shards, rewrite_docs, shard_docs, Cfg, Shard, FOREST_CLOSE,
-    FOREST_LABELS, WALL_CAPS,
+    FOREST_LABELS, WALL_CAPS, to_ruma_mode,
 };
 use std::sync::atomic::{AtomicBool, Ordering::Relaxed};
-use ruma_html::{Html, SanitizerConfig};
+use ruma_html::{sanitize_html, Html, RemoveReplyFallback, SanitizerConfig};
 use serde_json::{json, Value};
 
 /// idempotence / same-object / chain
@@ -103,12 +103,28 @@ fn eval_preserve(
             None => p0,
             Some(d) => Html::parse(d).to_string(),
         };
-        (expected, s)
+        // the string helper of the same mode must preserve / rewrite alike
+        let helper = if cfg.main {
+            let rrf = if cfg.rrf { RemoveReplyFallback::Yes } else { RemoveReplyFallback::No };
+            Some(sanitize_html(input, to_ruma_mode(cfg.mode.unwrap()), rrf))
+        } else {
+            None
+        };
+        (expected, s, helper)
     });
     t.transitions += 4;
     match res {
         Err(p) => out.push((format!("{pre}panic/{}/{class}", p.file()), format!("{} on input {input:?}", p.text))),
-        Ok((expected, s)) => {
+        Ok((expected, s, helper)) => {
+            if let Some(hs) = helper {
+                t.transitions += 1;
+                if hs != expected {
+                    out.push((
+                        format!("{pre}{class}/entrypoint-sanitize_html/{}", diff_class(&expected, &hs)),
+                        format!("[{}] input {input:?}: expected {expected:?}, sanitize_html gives {hs:?}", cfg.name),
+                    ));
+                }
+            }
             t.nontrivial += 1;
             t.outcome(if expected_doc.is_some() { "rewrite" } else { "preserve" }, if s == input { "byte-identical" } else { "parser-normalised" });
             if s != expected {
